@@ -57,6 +57,11 @@ pub fn run(rng: &mut Rng, out: &mut Fails) {
         }
         if out.len() > 5 { return; }
     } } } }
+    // entries of very different magnitude (products matter even when one factor is tiny)
+    { let a = vec![1e-20, 2.0, 3e-18, 4.0]; let b = vec![1e20, 1.0, 5e17, 2.0];
+      for (ta, tb) in [(false, false), (true, false), (false, true), (true, true)] {
+          let w = reference(&a, &b, 2, 2, 2, 2, ta, tb).unwrap().0; let g = matmul(&a, &b, 2, 2, ta, tb);
+          if g != w { fail(out, "matmul", "C05.matmul.entry", format!("A={:?} B={:?} ta={} tb={}", a, b, ta, tb), format!("{:?}", g), format!("{:?}", w)); } } }
     // vector promotion: Matrix.Vector (vector as a column), Vector.Matrix (vector as a row), Vector.Vector
     for r in 1..=5usize { for c in 1..=5usize {
         let a = rng.ivec(r * c, -4, 4);
